@@ -29,19 +29,22 @@ type Frame struct {
 
 // Conn is a raw protocol-V2 client connection.
 type Conn struct {
-	Name   string
-	c      net.Conn
-	w      *bufio.Writer
-	wmu    sync.Mutex
-	frames chan Frame
-	closed chan struct{}
-	once   sync.Once
-	rerr   error
-	rd     io.Reader    // current read side (raw, TLS, snappy or deflate)
-	flush  func() error // extra flush of the compression layer
+	Name    string
+	c       net.Conn
+	w       *bufio.Writer
+	wmu     sync.Mutex
+	frames  chan Frame
+	closed  chan struct{}
+	once    sync.Once
+	rerr    error
+	rd      io.Reader    // current read side (raw, TLS, snappy or deflate)
+	flush   func() error // extra flush of the compression layer
 	started bool
-	hold    chan struct{} // non-nil: the frame reader waits on it before every read (a consumer that stopped reading)
-	Neg    map[string]interface{} // negotiated features from the IDENTIFY response
+	hold    chan struct{}          // non-nil: the frame reader waits on it before every read (a consumer that stopped reading)
+	Neg     map[string]interface{} // negotiated features from the IDENTIFY response
+	under   io.ReadWriter          // what a compression layer sits on: the socket, or the TLS connection once upgraded
+	underR  *bufio.Reader          // one buffered reader of `under`, shared by successive decompressors (a second IDENTIFY restarts the stream)
+	noStart bool                   // identify() leaves the frame reader stopped (another IDENTIFY follows)
 }
 
 const barrierID = "ffffffffffffffff" // never issued by the generator (ids start with the timestamp)
@@ -232,13 +235,17 @@ func (cn *Conn) identify(extra map[string]interface{}) (map[string]interface{}, 
 		}
 		return nil
 	}
-	var under io.ReadWriter = cn.c
+	under := cn.under
+	if under == nil {
+		under = cn.c
+	}
 	if v, _ := resp["tls_v1"].(bool); v {
 		tc := tls.Client(cn.c, &tls.Config{InsecureSkipVerify: true})
 		if err := tc.Handshake(); err != nil {
 			return nil, err
 		}
 		under = tc
+		cn.under = tc
 		cn.rd = tc
 		cn.w = bufio.NewWriter(tc)
 		if err := expectOK(); err != nil {
@@ -246,7 +253,10 @@ func (cn *Conn) identify(extra map[string]interface{}) (map[string]interface{}, 
 		}
 	}
 	if v, _ := resp["snappy"].(bool); v {
-		cn.rd = snappy.NewReader(under)
+		if cn.underR == nil {
+			cn.underR = bufio.NewReader(under)
+		}
+		cn.rd = snappy.NewReader(cn.underR)
 		//lint:ignore SA1019 unbuffered snappy writer, as nsqd itself uses
 		cn.w = bufio.NewWriter(snappy.NewWriter(under))
 		if err := expectOK(); err != nil {
@@ -258,7 +268,10 @@ func (cn *Conn) identify(extra map[string]interface{}) (map[string]interface{}, 
 		if l, ok := resp["deflate_level"].(float64); ok {
 			lvl = int(l)
 		}
-		cn.rd = flate.NewReader(under)
+		if cn.underR == nil {
+			cn.underR = bufio.NewReader(under)
+		}
+		cn.rd = flate.NewReader(cn.underR)
 		fw, _ := flate.NewWriter(under, lvl)
 		cn.w = bufio.NewWriter(fw)
 		cn.flush = fw.Flush
@@ -267,9 +280,39 @@ func (cn *Conn) identify(extra map[string]interface{}) (map[string]interface{}, 
 		}
 	}
 	cn.c.SetReadDeadline(time.Time{})
-	cn.start()
+	if !cn.noStart {
+		cn.start()
+	}
 	return resp, nil
 }
+
+// identifyTwice: IDENTIFY, then IDENTIFY again asking for the same compression (nsqd accepts IDENTIFY as long as
+// the connection has not subscribed): the server answers the second one over the layers negotiated so far and then
+// restarts the compression stream on top of the socket / TLS connection; so does this client.
+func (cn *Conn) identifyTwice(extra map[string]interface{}) (map[string]interface{}, error) {
+	cn.noStart = true
+	if _, err := cn.identify(extra); err != nil {
+		cn.noStart = false
+		return nil, err
+	}
+	cn.noStart = false
+	again := map[string]interface{}{}
+	for k, v := range extra {
+		if k != "tls_v1" { // TLS is negotiated once
+			again[k] = v
+		}
+	}
+	resp, err := cn.identify(again)
+	if err != nil {
+		return nil, &secondIdentifyErr{err}
+	}
+	return resp, nil
+}
+
+// secondIdentifyErr: the first IDENTIFY went through on this very connection, the repeated one did not
+type secondIdentifyErr struct{ err error }
+
+func (e *secondIdentifyErr) Error() string { return e.err.Error() }
 
 func (cn *Conn) sub(topic, channel string) error {
 	if err := cn.send(fmt.Sprintf("SUB %s %s\n", topic, channel), nil); err != nil {
